@@ -150,6 +150,14 @@ func genericReplay(eng *Engine, ob *Obligation, repo, verif string) (reproduced 
 		inputs[fmt.Sprintf("obj%d (%s at %s)", o.id, shortType(o.typ.String()), o.addr)] = describe(o.val, 0)
 	}
 	detail["inputs"] = inputs
+	var totalBytes int64
+	for _, bl := range m.blkList {
+		totalBytes += int64(bl.size) * replayElemSize(bl.elem)
+	}
+	if totalBytes > replayMaxBytes {
+		detail["note"] = fmt.Sprintf("the model implies allocations of %d MB in total (limit %d MB): not replayed", totalBytes>>20, replayMaxBytes>>20)
+		return false, detail
+	}
 	detail["model_terms_read"] = m.nterms
 	detail["model_shaping_steps"] = m.shapes % 1000
 	m.s.close()
